@@ -19,7 +19,8 @@ def gnameOf (n : Str) : GName :=
   else if n == cs!"T" then .T else if n == cs!"SQRTNOT" then .SQRTNOT else if n == cs!"CNOT" then .CNOT
   else if n == cs!"CRX" then .CRX else if n == cs!"CRY" then .CRY else if n == cs!"CRZ" then .CRZ
   else if n == cs!"CS" then .CS else if n == cs!"CT" then .CT else if n == cs!"SWAP" then .SWAP
-  else if n == cs!"TOFFOLI" then .TOFFOLI else .other (String.ofList n)
+  else if n == cs!"TOFFOLI" then .TOFFOLI else if n == cs!"CSIGN" then .CSIGN else if n == cs!"CZ" then .CZ
+  else .other (String.ofList n)
 
 /-- `gnameOf` is `GName.ofString` on the exportable names -/
 theorem gnameOf_ofString : ∀ e ∈ exportShape, gnameOf e.1 = GName.ofString (String.ofList e.1) := by decide
